@@ -6,15 +6,18 @@
 EXTENDS Naturals, Integers, Sequences, Bitwise
 
 Byte == 0..255
+\* TLC evaluates [i \in S |-> e] lazily and re-evaluates e on every application;
+\* concatenation with <<>> forces the value into a concrete tuple once.
+Mk(f) == f \o <<>>
 IsWord(x) == DOMAIN x = 1..Len(x) /\ \A i \in 1..Len(x) : x[i] \in Byte
-WZero(n) == [i \in 1..n |-> 0]
-WOnes(n) == [i \in 1..n |-> 255]
-WOne(n)  == [i \in 1..n |-> IF i = 1 THEN 1 ELSE 0]
+WZero(n) == Mk([i \in 1..n |-> 0])
+WOnes(n) == Mk([i \in 1..n |-> 255])
+WOne(n)  == Mk([i \in 1..n |-> IF i = 1 THEN 1 ELSE 0])
 
 P2(k) == IF k = 0 THEN 1 ELSE 2 ^ k              \* k <= 30
 
 \* small natural -> word (n < 2^31)
-WFromNat(v, n) == [i \in 1..n |-> IF i <= 4 THEN (v \div P2(8 * (i - 1))) % 256 ELSE 0]
+WFromNat(v, n) == Mk([i \in 1..n |-> IF i <= 4 THEN (v \div P2(8 * (i - 1))) % 256 ELSE 0])
 \* word -> natural; only meaningful when WFitsNat(x)
 WFitsNat(x) == \A i \in 1..Len(x) : (i > 4 => x[i] = 0) /\ (i = 4 => x[i] < 128)
 RECURSIVE WToNatR(_, _)
@@ -22,12 +25,12 @@ WToNatR(x, i) == IF i > Len(x) \/ i > 4 THEN 0 ELSE x[i] + 256 * WToNatR(x, i + 
 WToNat(x) == WToNatR(x, 1)
 \* small integer (possibly negative) -> two's complement word
 WFromInt(v, n) == IF v >= 0 THEN WFromNat(v, n)
-                  ELSE LET m == WFromNat(-v - 1, n) IN [i \in 1..n |-> 255 - m[i]]
+                  ELSE LET m == WFromNat(-v - 1, n) IN Mk([i \in 1..n |-> 255 - m[i]])
 
-WNot(x)    == [i \in 1..Len(x) |-> 255 - x[i]]
-WAnd(x, y) == [i \in 1..Len(x) |-> x[i] & y[i]]
-WOr(x, y)  == [i \in 1..Len(x) |-> x[i] | y[i]]
-WXor(x, y) == [i \in 1..Len(x) |-> x[i] ^^ y[i]]
+WNot(x)    == Mk([i \in 1..Len(x) |-> 255 - x[i]])
+WAnd(x, y) == Mk([i \in 1..Len(x) |-> x[i] & y[i]])
+WOr(x, y)  == Mk([i \in 1..Len(x) |-> x[i] | y[i]])
+WXor(x, y) == Mk([i \in 1..Len(x) |-> x[i] ^^ y[i]])
 
 RECURSIVE AddR(_, _, _, _, _)
 AddR(x, y, c, i, acc) ==
@@ -61,13 +64,13 @@ WMul(x, y) == MulR(x, y, 1, 0, <<>>)             \* low Len(x) bytes of the prod
 
 \* shifts by 0 <= n < 8*Len(x)
 WShl(x, n) == LET q == n \div 8  r == n % 8  w == Len(x) IN
-    [i \in 1..w |-> LET lo == IF i - q >= 1 THEN (x[i - q] * P2(r)) % 256 ELSE 0
-                        hi == IF i - q - 1 >= 1 THEN x[i - q - 1] \div P2(8 - r) ELSE 0
-                    IN lo + hi]
+    Mk([i \in 1..w |-> LET lo == IF i - q >= 1 THEN (x[i - q] * P2(r)) % 256 ELSE 0
+                           hi == IF i - q - 1 >= 1 THEN x[i - q - 1] \div P2(8 - r) ELSE 0
+                       IN lo + hi])
 ShrFill(x, n, fill) == LET q == n \div 8  r == n % 8  w == Len(x) IN
-    [i \in 1..w |-> LET a == IF i + q <= w THEN x[i + q] ELSE fill
-                        b == IF i + q + 1 <= w THEN x[i + q + 1] ELSE fill
-                    IN (a \div P2(r)) + ((b * P2(8 - r)) % 256)]
+    Mk([i \in 1..w |-> LET a == IF i + q <= w THEN x[i + q] ELSE fill
+                           b == IF i + q + 1 <= w THEN x[i + q + 1] ELSE fill
+                       IN (a \div P2(r)) + ((b * P2(8 - r)) % 256)])
 WShrL(x, n) == ShrFill(x, n, 0)
 WShrA(x, n) == ShrFill(x, n, IF IsNegW(x) THEN 255 ELSE 0)
 WRol(x, n) == LET w == 8 * Len(x)  m == n % w IN
@@ -81,10 +84,10 @@ Bit(x, k) == (x[(k \div 8) + 1] \div P2(k % 8)) % 2      \* k-th bit, 0-based
 RECURSIVE DivR(_, _, _, _, _)
 DivR(x, y, k, q, r) ==
     IF k < 0 THEN <<q, r>>
-    ELSE LET r2 == LET s == WShl(r, 1) IN [s EXCEPT ![1] = @ + Bit(x, k)]
+    ELSE LET r2 == LET s == WShl(r, 1) IN Mk([s EXCEPT ![1] = @ + Bit(x, k)])
              ge == ~WLtU(r2, y)
          IN DivR(x, y, k - 1,
-                 IF ge THEN [q EXCEPT ![(k \div 8) + 1] = @ + P2(k % 8)] ELSE q,
+                 IF ge THEN Mk([q EXCEPT ![(k \div 8) + 1] = @ + P2(k % 8)]) ELSE q,
                  IF ge THEN WSub(r2, y) ELSE r2)
 WDivModU(x, y) == DivR(x, y, 8 * Len(x) - 1, WZero(Len(x)), WZero(Len(x)))
 WAbs(x) == IF IsNegW(x) THEN WNeg(x) ELSE x
@@ -98,5 +101,5 @@ WIsMinusOne(x) == \A i \in 1..Len(x) : x[i] = 255
 
 \* resize to n bytes from a source of given signedness
 WResize(x, n, signed) == LET f == IF signed /\ IsNegW(x) THEN 255 ELSE 0 IN
-    [i \in 1..n |-> IF i <= Len(x) THEN x[i] ELSE f]
+    Mk([i \in 1..n |-> IF i <= Len(x) THEN x[i] ELSE f])
 =============================================================================
